@@ -74,4 +74,38 @@ C03 = ['C03', 'C13']
 for _n, _e in (('eq', 'a == b'), ('neq', 'a != b'), ('lt', 'a < b'), ('le', 'a <= b'), ('gt', 'a > b'), ('ge', 'a >= b')):
     op(_n, 'cmp', C03, ALL, 'bb', 'm', '(%s)' % _e, S.cmp(_n))
 
+# ---- C02 ---------------------------------------------------------------------
+C02 = ['C02', 'C13']
+op('fadd', 'fp', C02, FPS, 'bb', 'b', 'xsimd::add(a, b)', S.fop('fadd'))
+op('fsub', 'fp', C02, FPS, 'bb', 'b', 'xsimd::sub(a, b)', S.fop('fsub'))
+op('fmul', 'fp', C02, FPS, 'bb', 'b', 'xsimd::mul(a, b)', S.fop('fmul'))
+op('fdiv', 'fp', C02, FPS, 'bb', 'b', 'xsimd::div(a, b)', S.fop('fdiv'))
+op('fsqrt', 'fp', C02, FPS, 'b', 'b', 'xsimd::sqrt(a)', S.fsqrt)
+op('fneg', 'fp', C02, FPS, 'b', 'b', 'xsimd::neg(a)', S.fneg)
+op('fabs', 'fp', C02, FPS, 'b', 'b', 'xsimd::abs(a)', S.fabs)
+op('ffabs', 'fp', C02 + ['C12'], FPS, 'b', 'b', 'xsimd::fabs(a)', S.fabs)
+op('fcopysign', 'fp', C02, FPS, 'bb', 'b', 'xsimd::copysign(a, b)', S.fcopysign)
+op('ffma', 'fp', C02, FPS, 'bbb', 'b', 'xsimd::fma(a, b, c)', S.ffma)
+op('ffms', 'fp', C02, FPS, 'bbb', 'b', 'xsimd::fms(a, b, c)', S.ffms)
+op('ffnma', 'fp', C02, FPS, 'bbb', 'b', 'xsimd::fnma(a, b, c)', S.ffnma)
+op('ffnms', 'fp', C02, FPS, 'bbb', 'b', 'xsimd::fnms(a, b, c)', S.ffnms)
+op('fmin', 'fp', C02, FPS, 'bb', 'b', 'xsimd::min(a, b)', S.fminmax('min'))
+op('fmax', 'fp', C02, FPS, 'bb', 'b', 'xsimd::max(a, b)', S.fminmax('max'))
+op('fisnan', 'fp', C02, FPS, 'b', 'm', 'xsimd::isnan(a)', S.fisnan)
+op('fisinf', 'fp', C02, FPS, 'b', 'm', 'xsimd::isinf(a)', S.fisinf)
+op('fisfinite', 'fp', C02, FPS, 'b', 'm', 'xsimd::isfinite(a)', S.fisfinite)
+op('fsign', 'fp', C02, FPS, 'b', 'b', 'xsimd::sign(a)', S.fsign)
+op('fsignnz', 'fp', C02, FPS, 'b', 'b', 'xsimd::signnz(a)', S.fsignnz)
+op('fbitofsign', 'fp', C02, FPS, 'b', 'b', 'xsimd::bitofsign(a)', S.fbitofsign)
+op('fband', 'fp', C02, FPS, 'bb', 'b', 'xsimd::bitwise_and(a, b)', S.band)
+op('fbor', 'fp', C02, FPS, 'bb', 'b', 'xsimd::bitwise_or(a, b)', S.bor)
+op('fbxor', 'fp', C02, FPS, 'bb', 'b', 'xsimd::bitwise_xor(a, b)', S.bxor)
+op('fbnot', 'fp', C02, FPS, 'b', 'b', 'xsimd::bitwise_not(a)', S.bnot)
+op('fbandnot', 'fp', C02, FPS, 'bb', 'b', 'xsimd::bitwise_andnot(a, b)', S.bandnot)
+
+# ---- C08 ---------------------------------------------------------------------
+C08 = ['C08', 'C13']
+for _n in ('ceil', 'floor', 'trunc', 'nearbyint', 'rint'):
+    op(_n, 'round', C08, FPS, 'b', 'b', 'xsimd::%s(a)' % _n, S.rounding(_n))
+
 BY_NAME = dict((o.name, o) for o in OPS)
